@@ -85,14 +85,29 @@ KERNELS = [
          params=[("n_args_array_1", "Arr"), ("n_args_array_2", "Arr")], ret="Mat",
          fuel="n_args_array_1.length + n_args_array_2.length + 1",
          uses=["find_first_difference_between_two", "find_end_subtree_from_i"]),
+    # ---- methods of the run engine (Python level): the self attributes they touch are a list in declared order
+    dict(name="TheFittest_replace", file="base/_ea.py", cls="TheFittest", func="_replace",
+         params=[("new_genotype", "Int"), ("new_phenotype", "Int"), ("new_fitness", "Int")], ret="Self",
+         self_state=["_genotype", "_phenotype", "_fitness", "_no_update_counter"]),
+    dict(name="TheFittest_update", file="base/_ea.py", cls="TheFittest", func="_update",
+         params=[("population_g", "Arr"), ("population_ph", "Arr"), ("fitness", "Arr")], ret="Self",
+         self_state=["_genotype", "_phenotype", "_fitness", "_no_update_counter"],
+         method_uses={"_replace": "TheFittest_replace"}),
+    dict(name="termination_check", file="base/_ea.py", cls="EvolutionaryAlgorithm", func="_termitation_check",
+         params=[], ret="Bool",
+         self_attrs={"_thefittest._fitness": ("best_fitness", "Int"), "_thefittest._no_update_counter": ("no_update_counter", "Int"),
+                     "_aim": ("aim", "Int"), "_no_increase_num": ("no_increase_num", "Int")}),
+    dict(name="get_remains_calls", file="base/_ea.py", cls="EvolutionaryAlgorithm", func="get_remains_calls",
+         params=[], ret="Int",
+         self_attrs={"_pop_size": ("pop_size", "Int"), "_iters": ("iters", "Int"), "_calls": ("calls", "Int")}),
     dict(name="tournament_selection", file="utils/selections.py", func="tournament_selection",
          params=[("fitness", "Arr"), ("rank", "Arr"), ("tour_size", "Int"), ("quantity", "Int")], ret="Arr",
          ext_stream={"random_sample": "samples"}),
 ]
 
-LTY = {"Int": "Int", "Arr": "List Int", "Bool": "Bool", "Mat": "List (List Int)"}
+LTY = {"Int": "Int", "Arr": "List Int", "Bool": "Bool", "Mat": "List (List Int)", "Self": "List Int"}
 DEFAULT = {"Int": "0", "Arr": "[]", "Bool": "false", "Mat": "[]"}
-RESERVED = ("end", "at", "from", "to", "in", "do", "then", "fun", "match", "with", "open", "by", "s", "us", "ns", "fuel", "rolls", "max", "min", "hi0", "samples")
+RESERVED = ("end", "at", "from", "to", "in", "do", "then", "fun", "match", "with", "open", "by", "s", "us", "ns", "fuel", "rolls", "max", "min", "hi0", "samples", "self")
 
 
 class NotRecognised(Exception):
@@ -138,6 +153,8 @@ class Tr:
         self.self_attrs = cfg.get("self_attrs", {})
         self.ext = cfg.get("ext", {})
         self.ext_stream = cfg.get("ext_stream", {})
+        self.self_state = cfg.get("self_state", [])
+        self.method_uses = cfg.get("method_uses", {})
         self.uses = cfg.get("uses", [])
         self.streams = bool(cfg.get("streams"))
         self.roll_stream = bool(cfg.get("roll_stream"))
@@ -172,6 +189,11 @@ class Tr:
             return "Bool"
         if isinstance(e, ast.List):
             return "Arr"
+        if isinstance(e, ast.Attribute):
+            dotted = self.self_path(e)
+            if dotted is not None and dotted in self.self_attrs:
+                return self.self_attrs[dotted][1]
+            return "Int"
         if isinstance(e, ast.Subscript):
             if isinstance(e.slice, ast.Slice):
                 return "Arr"
@@ -187,7 +209,7 @@ class Tr:
                 return "Arr"
             if nm in self.ext_stream:
                 return "Arr"
-            if nm == "flip_coin":
+            if nm in ("flip_coin", "bool"):
                 return "Bool"
             if nm in self.ext:
                 return self.ext[nm][1]
@@ -319,6 +341,17 @@ class Tr:
                 self.hoist(c, lines, env, guarded)
 
     @staticmethod
+    def self_path(e):
+        """`self.a.b` -> 'a.b'"""
+        parts = []
+        while isinstance(e, ast.Attribute):
+            parts.append(e.attr)
+            e = e.value
+        if isinstance(e, ast.Name) and e.id == "self":
+            return ".".join(reversed(parts))
+        return None
+
+    @staticmethod
     def is_randint1(e):
         """randint(lo, hi, 1)[0]"""
         return (isinstance(e, ast.Subscript) and isinstance(e.slice, ast.Constant) and e.slice.value == 0 and isinstance(e.value, ast.Call)
@@ -376,8 +409,11 @@ class Tr:
         if isinstance(e, ast.List):
             return "[" + ", ".join(self.E(x, env) for x in e.elts) + "]"
         if isinstance(e, ast.Attribute):
-            if isinstance(e.value, ast.Name) and e.value.id == "self" and e.attr in self.self_attrs:
-                return self.self_attrs[e.attr][0]
+            dotted = self.self_path(e)
+            if dotted is not None and dotted in self.self_attrs:
+                return self.self_attrs[dotted][0]
+            if dotted is not None and dotted in self.self_state:
+                return f"s.self{dotted}"
             if e.attr == "size" and self.ty(e.value) == "Arr":
                 return f"(Imp.leni {self.E(e.value, env)})"
             raise NotRecognised(f"attribute {ast.unparse(e)}")
@@ -448,6 +484,8 @@ class Tr:
                     return f"({f.id} {self.E(args[0], env)} {self.E(args[1], env)})"
                 if f.id == "int" and len(args) == 1:
                     return self.E(args[0], env)
+                if f.id == "bool" and len(args) == 1:
+                    return self.B(args[0], env)
                 if f.id == "sorted" and len(args) == 1:
                     return f"(Imp.sorted {self.E(args[0], env)})"
                 if f.id == "range" and len(args) == 1:
@@ -457,6 +495,8 @@ class Tr:
                 return self.E(args[0], env)
             if is_np(f, "array") and len(args) == 1:
                 return self.E(args[0], env)
+            if is_np(f, "argmax") and len(args) == 1 and self.ty(args[0]) == "Arr" and not isinstance(args[0], ast.Subscript):
+                return f"(Imp.argmax {self.E(args[0], env)})"
             if is_np(f, "argmax") and len(args) == 1 and isinstance(args[0], ast.Subscript) and self.ty(args[0].slice) == "Arr":
                 return f"(Imp.argmax (Imp.gather {self.E(args[0].value, env)} {self.E(args[0].slice, env)}))"
             if isinstance(f, ast.Attribute) and f.attr == "copy" and not args:
@@ -503,6 +543,9 @@ class Tr:
                 if b is not None:
                     parts += [self.oob(b, env), f"decide ({self.E(b, env)} < 0)"]
             return bor(*parts)
+        if isinstance(e, ast.Call) and id(e) not in env and is_np(e.func, "argmax") and len(e.args) == 1 and not isinstance(e.args[0], ast.Subscript) \
+                and self.ty(e.args[0]) == "Arr":
+            return bor(self.oob(e.args[0], env), f"({self.E(e.args[0], env)}).isEmpty")
         if isinstance(e, ast.Call) and id(e) not in env and is_np(e.func, "argmax") and len(e.args) == 1 and isinstance(e.args[0], ast.Subscript) \
                 and not isinstance(e.args[0].slice, ast.Slice) and self.ty(e.args[0].slice) == "Arr":
             a, ix = self.E(e.args[0].value, env), self.E(e.args[0].slice, env)
@@ -559,6 +602,21 @@ class Tr:
             return []
         if isinstance(st, ast.Assert):
             return []          # an assertion states a precondition; it is a hypothesis of the theorems, not behaviour
+        if isinstance(st, ast.Expr) and isinstance(st.value, ast.Call) and isinstance(st.value.func, ast.Attribute) \
+                and self.self_path(st.value.func) in self.method_uses:
+            # self.method(k=v, ...): the translated callee runs on the current self attributes
+            c = st.value
+            callee = self.method_uses[self.self_path(c.func)]
+            cc = KERNEL_BY_NAME[callee]
+            if c.args or sorted(k.arg for k in c.keywords) != sorted(n for n, _ in cc["params"]) or cc.get("self_state") != self.self_state:
+                raise NotRecognised(f"method call {ast.unparse(c)}")
+            kw = {k.arg: k.value for k in c.keywords}
+            env = self.pre([kw[n] for n, _ in cc["params"]], L)
+            args = " ".join(self.E(kw[n], env) for n, _ in cc["params"])
+            selfl = "[" + ", ".join(f"s.self{a}" for a in self.self_state) + "]"
+            upd = ", ".join(f"self{a} := Imp.geti v ({k} : Int)" for k, a in enumerate(self.self_state))
+            L.append(f"(match {callee} {selfl} {args} with | some v => {{ s with {upd} }} | none => {{ s with err := true }})")
+            return L
         if isinstance(st, ast.Expr) and isinstance(st.value, ast.Call):
             c = st.value
             if isinstance(c.func, ast.Attribute) and isinstance(c.func.value, ast.Name) and c.func.value.id in self.locals and self.locals[c.func.value.id] == "Arr":
@@ -592,6 +650,10 @@ class Tr:
                 env = self.pre([st.value], L)
                 L.append(f"{{ s with {self.id(t.id)} := {self.Ex(st.value, env)} }}")
                 return L
+            if isinstance(t, ast.Attribute) and self.self_path(t) in self.self_state:
+                env = self.pre([st.value], L)
+                L.append(f"{{ s with self{self.self_path(t)} := {self.Ex(st.value, env)} }}")
+                return L
             if isinstance(t, ast.Subscript) and isinstance(t.value, ast.Name) and t.value.id in self.locals and self.locals[t.value.id] == "Arr":
                 a = self.id(t.value.id)
                 env = self.pre([st.value, t.slice], L)
@@ -621,11 +683,11 @@ class Tr:
                 L.append("(let s0 := s; " + "; ".join(lets) + "; " + cur + ")")
                 return L
             raise NotRecognised(f"assignment target {ast.unparse(t)}")
-        if isinstance(st, ast.AugAssign) and isinstance(st.target, ast.Name):
+        if isinstance(st, ast.AugAssign) and (isinstance(st.target, ast.Name) or (isinstance(st.target, ast.Attribute) and self.self_path(st.target) in self.self_state)):
             op = {ast.Add: "+", ast.Sub: "-", ast.Mult: "*"}.get(type(st.op))
             if op is None:
                 raise NotRecognised("augmented operator")
-            n = self.id(st.target.id)
+            n = self.id(st.target.id) if isinstance(st.target, ast.Name) else "self" + self.self_path(st.target)
             env = self.pre([st.value], L)
             L.append(f"{{ s with {n} := s.{n} {op} {self.E(st.value, env)} }}")
             return L
@@ -706,6 +768,13 @@ class Tr:
     def ret(self, stmts, ind) -> str:
         """function tail: statements ending in return / raise / an if-chain of such"""
         pad = "  " * ind
+        if self.cfg["ret"] == "Self":
+            # a method that updates self and returns nothing: the result is the list of self attributes
+            if any(isinstance(n, ast.Return) for st in stmts for n in ast.walk(st)):
+                raise NotRecognised("return inside a self-updating method")
+            body = self.block(stmts, ind)
+            selfl = "[" + ", ".join(f"s.self{a}" for a in self.self_state) + "]"
+            return f"{pad}let s := (\n{body})\n{pad}if s.err || s.dry then none else some ({selfl})"
         if not stmts:
             raise NotRecognised("function may fall off its end")
         *pre, last = stmts
@@ -750,9 +819,11 @@ class Tr:
         cfg = self.cfg
         name = cfg["name"]
         body = self.ret([st for st in self.fn.body], 1)
-        allf = {**{self.id(n): t for n, t in self.locals.items()}, **self.tmps}
+        allf = {**{self.id(n): t for n, t in self.locals.items()}, **self.tmps, **{f"self{a}": "Int" for a in self.self_state}}
         fields = "".join(f"  {n} : {LTY[t]} := {DEFAULT[t]}\n" for n, t in sorted(allf.items()))
         params = " ".join(f"({self.id(n)} : {LTY[t]})" for n, t in cfg["params"])
+        if self.self_state:
+            params = "(self : List Int) " + params
         extra = " ".join(f"({v} : {LTY[t]})" for v, t in list(self.self_attrs.values()) + list(self.ext.values()))
         extra += "".join(f" ({n} : Int)" for n in sorted(self.keyconsts))
         if self.streams:
@@ -763,7 +834,7 @@ class Tr:
         if self.roll_stream:
             extra += " (rolls : List Int)"
         extra += "".join(f" ({v} : List (List Int))" for v in self.ext_stream.values())
-        imports = "".join(f"import TFV.Generated.Src.{u}\n" for u in self.uses)
+        imports = "".join(f"import TFV.Generated.Src.{u}\n" for u in list(self.uses) + list(self.method_uses.values()))
         fuel = f"  let fuel : Nat := {cfg['fuel']}\n" if cfg.get("fuel") else ""
         return (f"/- GENERATED by harness/extract/py2lean.py from /repo/src/thefittest/{cfg['file']} ({(cfg.get('cls') + '.') if cfg.get('cls') else ''}{cfg['func']})\n"
                 f"   on every run of the checks that depend on it. Do not edit. -/\n"
@@ -771,7 +842,7 @@ class Tr:
                 f"structure {name}.S where\n{fields}  brk : Bool := false\n  cnt : Bool := false\n  err : Bool := false\n  dry : Bool := false\n"
                 f"  ku : Nat := 0\n  kn : Nat := 0\n  kr : Nat := 0\n" + ("  kx : Nat := 0\n" if self.ext_stream else "") + "\n"
                 f"def {name} {params} {extra} : Option ({LTY[cfg['ret']]}) :=\n"
-                f"  let s : {name}.S := {{}}\n{fuel}{body}\n\nend TFV.Generated.Src\n")
+                f"  let s : {name}.S := {{" + ", ".join(f"self{a} := Imp.geti self ({k} : Int)" for k, a in enumerate(self.self_state)) + f"}}\n{fuel}{body}\n\nend TFV.Generated.Src\n")
 
 
 NP_FUNCS = ("int64", "floor", "array", "empty", "zeros", "empty_like", "arange", "cumsum", "argmax")
